@@ -84,7 +84,7 @@ def regen(ctx=None):
     os.makedirs(os.path.join(COQ, "gen"), exist_ok=True)
     os.makedirs(os.path.join(BUILD, "gen_py"), exist_ok=True)
     msgs, ok = [], True
-    for script in ("gen_r.py", "gen_q.py"):
+    for script in ("gen_r.py", "gen_q.py", "gen_f.py"):     # gen_f: the same IR printed over primitive binary64 floats
         p = os.path.join(VERIF, "translate", script)
         if not os.path.exists(p):
             continue
